@@ -42,7 +42,9 @@ META = {
 ALLOWED = (ParserError, ConverterError, XmlContextError)
 XSI = seam.XSI
 NAMES = ["zzz", "{urn:zz}q", "{urn:a}i", "{urn:a}v", "v", "{urn:a}item", "s", "{urn:b}other", "n", "alpha", "{urn:a}base"]
-XSI_TYPES = ["zz:t", "xs:nope", "{urn:a}nope", "xs:int", ":", "", "ns0:derived", "xs:", "{urn:a}sibling", "{http://www.w3.org/2001/XMLSchema}string", "a:b:c"]
+XSI_TYPES = ["zz:t", "xs:nope", "{urn:a}nope", "xs:int", ":", "", "ns0:derived", "xs:", "{urn:a}sibling", "{http://www.w3.org/2001/XMLSchema}string", "a:b:c",
+             "xs:hexBinary", "xs:base64Binary", "xs:QName", "xs:dateTime", "xs:boolean", "xs:duration"]
+XS = "http://www.w3.org/2001/XMLSchema"
 
 _DOC = PART.get("doc", "basic")
 _CLS, _OBJ = mutate.DOCS[_DOC]
@@ -70,6 +72,7 @@ def _base():
 NN = len(mutate.nodes(mutate.tree_for(_OBJ)))  # number of nodes of the valid document (concrete, at import)
 KIND = PART.get("kind", "delete")
 TLEN = PART.get("tlen", 1)
+RMAX = len(XSI_TYPES) if KIND == "xsitype" else len(NAMES)
 _USES_TXT = ("inject", "text", "attr", "addattr", "xsinil", "qname")
 _NEEDS_PARENT = ("delete", "duplicate", "swap")
 
@@ -121,6 +124,8 @@ def _apply(root, kind, e, r, txt):
         node.attrs[NAMES[r]] = txt
     elif kind == "xsitype":
         node.attrs["{%s}type" % XSI] = XSI_TYPES[r]
+        if not any(p == "xs" for p, _ in root.ns):
+            root.ns = list(root.ns) + [("xs", XS)]  # the xs prefix is declared, so builtin type names resolve
     elif kind == "xsinil":
         node.attrs["{%s}nil" % XSI] = txt
     elif kind == "qname":
@@ -135,7 +140,7 @@ def _apply(root, kind, e, r, txt):
 def fault(e: int, r: int, txt: str) -> bool:
     """
     pre: 0 <= e < NN
-    pre: 0 <= r < len(NAMES)
+    pre: 0 <= r < RMAX
     pre: len(txt) <= TLEN
     pre: small_alphabet(txt)
     post: _
@@ -195,7 +200,7 @@ def _paths(d, prefix=()):
 
 
 NP = len(_paths(DictEncoder().encode(_OBJ)))
-DKINDS = ["drop", "rename", "tolist", "toscalar", "toobject", "nest", "null", "value"]
+DKINDS = ["drop", "rename", "tolist", "toscalar", "toobject", "nest", "null", "value", "unwrap", "topscalar", "topnull", "toplist"]
 
 
 def _get(d, path):
@@ -234,6 +239,18 @@ def dict_fault(p: int, k: int, txt: str, n: int) -> bool:
         holder[key] = {key: holder[key]}
     elif kind == "null":
         holder[key] = None
+    elif kind == "unwrap":
+        inner = holder[key]
+        if not isinstance(inner, dict) or not isinstance(key, str):
+            return True
+        del holder[key]
+        holder.update(inner)  # the children of an object hoisted into its parent
+    elif kind == "topscalar":
+        data = n
+    elif kind == "topnull":
+        data = None
+    elif kind == "toplist":
+        data = [data, txt]
     else:
         holder[key] = txt
     cfg = ParserConfig(fail_on_unknown_properties=bool(PART.get("strict", 1)), fail_on_converter_warnings=bool(PART.get("fcw", 0)))
@@ -260,14 +277,14 @@ KINDS = ["delete", "duplicate", "retag", "swap", "inject", "text", "attr", "dela
 def plan(tier):
     jobs = []
     quick = tier == "quick"
-    docs = ["basic", "parenta", "holder", "nillable", "compound", "reqtext", "enums", "wrapped", "unions", "wildknown", "wild"] if quick else list(mutate.DOCS)
+    docs = ["basic", "parenta", "holder", "nillable", "compound", "reqtext", "enums", "wrapped", "unions", "wildknown", "wild", "anytyped"] if quick else list(mutate.DOCS)
     tlen = 1 if quick else 2
     for d_i, doc in enumerate(docs):
         tree = mutate.tree_for(mutate.DOCS[doc][1])
         n_nodes = len(mutate.nodes(tree))
         has_attrs = any(n.attrs for n in mutate.nodes(tree))
         for k_i, kind in enumerate(KINDS):
-            if quick and (d_i + k_i) % 3 and doc not in ("basic", "holder") and not (doc in ("wildknown", "wild") and kind in ("duplicate", "retag", "inject")):
+            if quick and (d_i + k_i) % 3 and doc not in ("basic", "holder") and not (doc in ("wildknown", "wild") and kind in ("duplicate", "retag", "inject")) and not (doc == "anytyped" and kind in ("xsitype", "text")):
                 continue
             if (kind in _NEEDS_PARENT and n_nodes < 3) or (kind in ("attr", "delattr") and not has_attrs):
                 continue  # fault kind not applicable to this document (would be a vacuous harness)
@@ -275,7 +292,7 @@ def plan(tier):
             if not quick:
                 jobs.append(Job("fault", {"doc": doc, "kind": kind, "handler": ("lxml", "native")[(d_i + k_i) % 2], "strict": int((d_i + k_i) % 4 == 3), "fcw": 1 - (k_i // 2) % 2, "tlen": tlen}, 240, 30))
     jobs.append(Job("syntax_error", {"doc": "basic"}, 60, 10))
-    for d_i, doc in enumerate(["basic", "parenta", "holder", "lists", "compound", "wrapped", "nillable", "enums", "unionmodels"] if quick else list(mutate.DOCS)):
+    for d_i, doc in enumerate(["basic", "parenta", "holder", "lists", "compound", "wrapped", "nillable", "enums", "unionmodels", "wild"] if quick else list(mutate.DOCS)):
         jobs.append(Job("dict_fault", {"doc": doc, "strict": 1, "fcw": d_i % 2, "tlen": tlen}, 240, 30))
         if not quick or d_i % 2 == 0:
             jobs.append(Job("dict_fault", {"doc": doc, "strict": 0, "fcw": (d_i + 1) % 2, "tlen": tlen}, 240, 30))
